@@ -535,6 +535,71 @@ def shard_scale(shard):
     return part
 
 
+def scale_cell_patterns(k):
+    """Long underlying patterns: i -> q*i mod k (3 multipliers), identity, reverse identity."""
+    out = [tuple(q * i % k for i in range(k)) for q in coprime_multipliers(k, 3)]
+    out += [tuple(range(k)), tuple(range(k - 1, -1, -1))]
+    seen, res = set(), []
+    for p in out:
+        if p not in seen and R.is_perm(p):
+            seen.add(p)
+            res.append(p)
+    return res
+
+
+def scale_probe(k):
+    return sorted({v for v in (0, 1, 3, 7, 8, 9, 31, 32, 33, k - 1, k) if 0 <= v <= k})
+
+
+def shard_scalecells(shard):
+    """Pattern side of `scale`: SEVERAL shaded cells in one column (one row) of a long pattern.
+    For the columns (rows) c in {0, k//2, k}: every set S of 2..maxsize probe rows (columns)
+    gives the shading {(c, r) : r in S} (resp. {(x, c) : x in S}); also the covincular (vincular)
+    pattern requiring exactly the rows (columns) S.  Texts: the pattern with ONE extra point in
+    box (c, r) for every probe r - inside the shading for r in S, outside otherwise - so kept
+    and rejected candidates both occur.  Oracle as everywhere (definition, prefix search)."""
+    k, pi, maxsize = shard
+    lib = _lib()
+    part = Partial()
+    patt = scale_cell_patterns(k)[pi]
+    probe = scale_probe(k)
+    lines = sorted({0, k // 2, k})
+    subsets = [S for r in range(2, maxsize + 1) for S in itertools.combinations(probe, r)]
+    boxes = sorted({(c, r) for c in lines for r in probe} | {(x, c) for c in lines for x in probe})
+    texts = {}
+    for (x, y) in boxes:
+        t = R.insert_point(patt, x, y)
+        texts[(x, y)] = (t, lib.Perm(t), X.mesh_table_dfs(patt, t))
+    plan = []          # (spec, boxes whose text is used)
+    for c in lines:
+        for S in subsets:
+            plan.append((mesh_spec(patt, [(c, r) for r in S]), [(c, r) for r in probe]))
+            plan.append((mesh_spec(patt, [(x, c) for x in S]), [(x, c) for x in probe]))
+    for S in subsets:
+        plan.append((("covinc", patt, (), S), [(c, r) for c in lines for r in probe]))
+        plan.append((("vinc", patt, S, ()), [(x, c) for c in lines for x in probe]))
+    for spec, where in plan:
+        try:
+            obj = make(spec)
+        except Exception as exc:  # noqa
+            part.violation("construct", spec_case(spec), {"exception": repr(exc)})
+            continue
+        sh = spec_shading(spec)
+        for box in where:
+            t, T, table = texts[box]
+            ref = X.mesh_from_table(table, sh)
+            check_pair(part, "scale", spec, obj, t, T, ref, False)
+            nt = 1 if 0 < len(ref) < len(table) else 0
+            part.add(1, nt)
+            part.bump("scale:pairs")
+            part.bump("scale:several-cells-in-one-line,k=%d" % k)
+            if len(ref) < len(table):
+                part.bump("scale:several-cells:some-candidate-rejected")
+            if ref:
+                part.bump("scale:several-cells:some-candidate-kept")
+    return part
+
+
 # --------------------------------------------------------------------------------------------
 # get_adjacent_requirements, argument forms
 # --------------------------------------------------------------------------------------------
@@ -969,6 +1034,17 @@ def run(ctx, only=None):
             jobs += [(shard_scale, (n, lo, min(nt, lo + 8), 2, False)) for lo in range(3, nt, 8)]
         for n in big:
             jobs += [(shard_scale, (n, i, i + 1, 6, True)) for i in range(3)]
+        cell_lengths = [(8, 3), (9, 3), (10, 3), (12, 3), (33, 2)] if quick else \
+            [(8, 4), (9, 4), (10, 4), (11, 4), (12, 4), (33, 3), (34, 3)]
+        for k, maxsize in cell_lengths:
+            jobs += [(shard_scalecells, (k, pi, maxsize)) for pi in range(len(scale_cell_patterns(k)))]
+        ctx.bounds["scale_pattern_side"] = {
+            "pattern_lengths_and_max_cells_per_line": cell_lengths,
+            "underlying_patterns": "q*i mod k (3 multipliers), identity, reverse identity",
+            "shadings": "for each column c and each row c in {0, k//2, k}: every set of 2..max probe rows (columns) "
+                        "out of {0,1,3,7,8,9,31,32,33,k-1,k} inside that one column (row); covincular / vincular "
+                        "patterns requiring exactly such a set of rows / columns",
+            "texts": "the pattern plus one point in box (c, r) for every probe r (resp. (x, c) for every probe x)"}
         ctx.bounds["scale"] = {
             "what": "pattern = text minus d positions (so n - k = d), every shading of a family built around "
                     "the cells of the deleted points (single cells, vincular/covincular/bivincular lines)",
